@@ -599,6 +599,10 @@ func c11(c *core.Check) {
 	c11TextAlign(c)
 	c11Offsets(c)
 	c11WordBreak(c)
+	c11Justify(c)
+	r9 := c.Rule("R9", "running extrema: every guarded update `if a < b { c = a }` of the inline layout and text code compares the new value with the variable it updates (the line's running top, bottom, width …): a comparison with another variable overwrites the extremum instead of extending it", 3)
+	extremumRule(c, r9, "html/layout", 10)
+	extremumRule(c, r9, "text", 2)
 
 }
 
